@@ -616,7 +616,14 @@ theorem resume_post (inp : List UInt8) (G : Prop) (mk : Bool) (f : Nat) :
             obtain ⟨a, b, c, d, e, f, g, i, w, k, z⟩ := hw
             subst hr1
             exact ⟨a, b, c, d, e, by simp only [growOk]; omega, by simp only [growOk]; omega, i, w, k, z⟩
-          obtain ⟨br', ext, m, hfill, hbuf, hcap, hcur, hext, hw2, he2, -⟩ := fill_win inp G r1 hw1
+          rcases fill_cases inp G r1 hw1 with
+            ⟨br', ext, m, hfill, hbuf, hcap, hcur, hext, hw2, he2, -⟩ |
+            ⟨br', ext, k, hfill, -⟩
+          rotate_left
+          · -- the refill fails: no record is returned
+            rw [resume_grow_err f ip mk r r1 br' k hlt hp hg hfill]
+            intro hok
+            simp at hok
           rw [resume_grow f ip mk r r1 br' m hlt hp hg hfill]
           have e1 : r1.br.buf = r.br.buf := by subst hr1; rfl
           have e2 : r1.bp = r.bp := by subst hr1; rfl
@@ -651,7 +658,14 @@ theorem resume_post (inp : List UInt8) (G : Prop) (mk : Bool) (f : Nat) :
                 (r.br.src.cursor - r.br.buf.length) + r.bp.pos0 := by omega
             rw [this, ← List.drop_drop, w, List.drop_append_of_le_length hp0]
           · simp only [BufRd.consume, shiftBp, List.length_drop]; omega
-        obtain ⟨br', ext, m, hfill, hbuf, hcap, hcur, hext, hw2, he2, -⟩ := fill_win inp G r1 hw1
+        rcases fill_cases inp G r1 hw1 with
+          ⟨br', ext, m, hfill, hbuf, hcap, hcur, hext, hw2, he2, -⟩ |
+          ⟨br', ext, k, hfill, -⟩
+        rotate_left
+        · -- the refill fails: no record is returned
+          rw [resume_room_err f ip mk r r1 br' k hlt hp hmr hfill]
+          intro hok
+          simp at hok
         rw [resume_room f ip mk r r1 br' m hlt hp hmr hfill]
         have e1 : r1.br.buf = r.br.buf.drop r.bp.pos0 := by subst hr1; rfl
         have e2 : r1.bp = shiftBp r.bp ip := by subst hr1; rfl
@@ -717,20 +731,24 @@ theorem next_post (inp : List UInt8) (G : Prop) (fuel : Nat) (r : Reader) (items
     simp [next, hst] at hok
   | new =>
     simp only [Good, hst] at hg
-    obtain ⟨hw, hbuf, hcur, hp0, hbyte, hline, hip, hitems⟩ := hg
-    obtain ⟨br', ext, n, hfill, hbuf', hcap', hcur', hext, hw2, he2, hn⟩ := fill_win inp G r hw
+    obtain ⟨hw, -, hp0, hbyte, hline, hip, hitems⟩ := hg
     rw [hw.inp_eq] at hfuel
-    cases n with
-    | zero =>
+    rcases fill_cases inp G r hw with
+      ⟨br', ext, n, hfill, hbuf', hcap', hcur', hext, hw2, he2, hn⟩ | ⟨br', ext, k, hfill, -⟩
+    · cases n with
+      | zero =>
+        intro hok
+        simp [next, hst, init, hfill] at hok
+      | succ n =>
+        have : next fuel r = nextCont fuel { r with br := br', state := .parsing } := by
+          simp only [next, hst, init, hfill]
+        rw [this]
+        have hb2 : Base inp G { r with br := br' } := ⟨hw2, by simp [hp0]⟩
+        exact nextCont_post inp G fuel { r with br := br', state := .parsing }
+          (hb2.set_state .parsing) he2 (by intro ip h; simp only [hip] at h; cases h) hfuel
+    · -- the first refill fails: no record is returned
       intro hok
       simp [next, hst, init, hfill] at hok
-    | succ n =>
-      have : next fuel r = nextCont fuel { r with br := br', state := .parsing } := by
-        simp only [next, hst, init, hfill]
-      rw [this]
-      have hb2 : Base inp G { r with br := br' } := ⟨hw2, by simp [hp0]⟩
-      exact nextCont_post inp G fuel { r with br := br', state := .parsing }
-        (hb2.set_state .parsing) he2 (by intro ip h; simp only [hip] at h; cases h) hfuel
   | parsing =>
     simp only [Good, hst] at hg
     obtain ⟨hb, he, hip, h01, h1l, hitems⟩ := hg
@@ -830,7 +848,7 @@ theorem fastq_unchanged_bytes (inp : List UInt8) (G : Prop) (fuel : Nat) (r : Re
         (inp.drop x.byte).take ((next fuel r).1.bp.pos1 - (next fuel r).1.bp.pos0) := by
   obtain ⟨h01, hw, hx⟩ := recAt_writeUnchanged inp _ (next_post inp G fuel r items hg hfuel hok)
   rcases next_found inp G fuel r items hg hfuel with
-    ⟨-, x, its', hits, hsh⟩ | ⟨hr, -⟩ | ⟨e, b, l, hr, -⟩ | ⟨hr, -⟩
+    (⟨-, x, its', hits, hsh⟩ | ⟨hr, -⟩ | ⟨e, b, l, hr, -⟩ | ⟨e, hr, -⟩) | ⟨-, hr, -⟩
   · have hbyte := hsh.byte_eq
     refine ⟨x, its', hits, hsh.good, hbyte.symm, ?_, ?_⟩
     · rw [hw, hx, rawFq, hbyte]
@@ -838,6 +856,8 @@ theorem fastq_unchanged_bytes (inp : List UInt8) (G : Prop) (fuel : Nat) (r : Re
   · rw [hok] at hr; cases hr
   · rw [hok] at hr; cases hr
   · rw [hok] at hr; cases hr
+  · rw [hok] at hr
+    rcases hr with hr | ⟨k, hr⟩ <;> cases hr
 
 /-! ### the whole stream -/
 
@@ -870,10 +890,11 @@ theorem runWrites_spec (inp : List UInt8) (k : Nat) :
         simp only [runWrites]
       rw [hrun]
       rcases next_found inp True _ r items hg hfuel with
-        ⟨hr, -⟩ | ⟨hr, hits, hfin⟩ | ⟨e, b, l, hr, hits, hfin⟩ | ⟨hr, hG, hfin⟩
+        (⟨hr, -⟩ | ⟨hr, hits, hfin⟩ | ⟨e, b, l, hr, hits, hfin⟩ | ⟨e, hr, henv, hG, hfin⟩) | ⟨hG, -⟩
       · exact absurd hr hok
       · rw [ih _ [] hfin.good, hits]; simp
       · rw [ih _ [] hfin.good, hits]; simp [fqOut]
+      · exact absurd trivial hG
       · exact absurd trivial hG
 
 /-- **C11, FASTQ, M level, the whole stream.** `next()` / `write_unchanged` in a loop writes the
